@@ -9,39 +9,41 @@
    suspended first resumes first"; it is a hypothesis of the stored-counter clause ONLY
    (C14_lifo_counter_refuted shows it is needed), everything else holds for every schedule.
 
-   Tiling of the property's domain:
-     no ResendRequest being serviced  -> C14_safe_tasks and its instances C14_senders_safe,
-                                         C14_logon_window, C14_reader_replies_safe (full property)
-     a ResendRequest being serviced while another task sends a new message (known finding
-     send_overlaps_resend_service, D12) -> C14_resend_window_refuted, .._caller_refuted,
-                                         C14_heartbeat_inflight_refuted. *)
+   The model describes the code AFTER the repair of D12 (fixes/D12-resend-keeps-journal.patch: the
+   ResendRequest handler no longer rewinds next_num_out nor truncates the journal; PossDup / gap-fill
+   replies are not journaled again).  With it the theorems cover the WHOLE domain of the property,
+   including schedules in which a ResendRequest is being serviced while other tasks send
+   (C14_resend_window); no known-finding class is left for C14.  `new` below = the new messages on
+   the wire (not PossDupFlag=Y, not SequenceReset), `retx_ok` = a legitimate retransmission frame. *)
 From Coq Require Import ZArith List Bool.
 From AF Require Import Fix.Sched Lemmas.SchedL.
 Import ListNotations.
 Open Scope Z_scope.
 
-(* Application tasks only.  w0: any world with an empty observed wire, journal rows only below
-   next_num_out and stored counter = next_num_out - 1 (init_ok); any connection state / role.
+(* Application tasks only.  w0: any world with an empty observed wire, journal rows keyed by their own
+   number below next_num_out and stored counter = next_num_out - 1 (init_ok); any connection state / role.
    mss: the messages of each task, all of them new (not SequenceReset, not PossDupFlag=Y). *)
 Theorem C14_senders_safe : forall (w0 : world) (mss : list (list msg)) (sched : list nat),
   init_ok w0 -> Forall (fun ms => forallb is_new ms = true) mss ->
   let c0 := mkC w0 (map sender_task mss) in
   let c := run_sched c0 sched in
   let w := c_w c in
+  let new := newf (wire_of w) in
   (* wire order = number order, consecutive from the first free number: strictly increasing, distinct *)
-  map f_seq (wire_of w) = zseq (nout w0) (length (wire_of w))
-  /\ nout w = nout w0 + Z.of_nat (length (wire_of w))
-  (* nothing but new messages went out *)
-  /\ Forall (fun f => f_pd f = false /\ f_ty f <> T_SEQRESET) (wire_of w)
+  map f_seq new = zseq (nout w0) (length new)
+  /\ nout w = nout w0 + Z.of_nat (length new)
+  (* anything else on the wire is a retransmission under its own number: the PossDup copy of a journaled
+     message, or a gap fill b -> n with b < n <= next_num_out *)
+  /\ Forall (fun g => is_newf g = true \/ retx_ok (rows w) (nout w) g) (wire_of w)
   (* no DuplicateSeqNoError, neither returned to a caller nor swallowed *)
   /\ no_dup_error (c_ts c)
-  (* every frame is journaled under its number, or its sender is still suspended in drain *)
-  /\ (forall f, In f (wire_of w) -> row_at (f_seq f) (rows w) = Some f \/ in_drain (c_ts c) f)
+  (* every new frame is journaled under its number, or its sender is still suspended in drain *)
+  /\ (forall f, In f new -> row_at (f_seq f) (rows w) = Some f \/ in_drain (c_ts c) f)
   (* no other row appears, older rows are untouched *)
-  /\ (forall k f, nout w0 <= k -> row_at k (rows w) = Some f -> In f (wire_of w) /\ f_seq f = k)
+  /\ (forall k f, nout w0 <= k -> row_at k (rows w) = Some f -> In f new /\ f_seq f = k)
   /\ (forall k, k < nout w0 -> row_at k (rows w) = row_at k (rows w0))
   (* when all tasks have finished every frame is journaled ... *)
-  /\ (all_done c = true -> forall f, In f (wire_of w) -> row_at (f_seq f) (rows w) = Some f)
+  /\ (all_done c = true -> forall f, In f new -> row_at (f_seq f) (rows w) = Some f)
   (* ... and, under FIFO drain wake-up, stored counter = highest number sent = next_num_out - 1 *)
   /\ (fifo_sched c0 sched = true -> all_done c = true -> sout w = nout w - 1).
 Proof. exact senders_safe. Qed.
@@ -67,9 +69,21 @@ Theorem C14_reader_replies_safe : forall (w0 : world) (r : task) (mss : list (li
 Proof. exact reader_replies_safe. Qed.
 Print Assumptions C14_reader_replies_safe.
 
+(* The reader task servicing ANY ResendRequest (any BeginSeqNo, EndSeqNo, any should_replay answers, any
+   journal content) while the heartbeat probe and any number of application tasks send: sends that start
+   or are in progress inside the service window get fresh consecutive numbers, every PossDup frame is the
+   copy of the journaled message of that number, nothing is journaled twice, the counter is right. *)
+Theorem C14_resend_window : forall (w0 : world) (b e : Z) (d : list Z) (mss : list (list msg)) (sched : list nat),
+  init_ok w0 -> Forall (fun ms => forallb is_new ms = true) mss ->
+  let c0 := mkC w0 (reader_resend b e d :: heartbeat_task :: map sender_task mss) in
+  safe_outcome w0 (run_sched c0 sched) (fifo_sched c0 sched).
+Proof. exact resend_window_safe. Qed.
+Print Assumptions C14_resend_window.
+
 (* The general form: ANY set of tasks whose code is any mix of send_msg of new messages,
-   send_test_req, _state_set hooks, plain hooks and role assignments - i.e. everything except the
-   ResendRequest service (IResend / IRestore).  safe_outcome is the nine-clause conjunction above. *)
+   send_test_req, _state_set hooks, plain hooks, role assignments and ResendRequest services (IResend,
+   which unfolds into should_replay hooks, PossDup replays and gap fills).  safe_outcome is the
+   nine-clause conjunction above. *)
 Theorem C14_safe_tasks : forall (w0 : world) (ts : list task) (sched : list nat),
   init_ok w0 -> Forall fresh_task ts ->
   safe_outcome w0 (run_sched (mkC w0 ts) sched) (fifo_sched (mkC w0 ts) sched).
@@ -87,43 +101,39 @@ Example C14_nonvacuous :
 Proof. exact ex_nonvacuous. Qed.
 Print Assumptions C14_nonvacuous.
 
-(* REFUTED inside the ResendRequest service (D12).  Reader servicing ResendRequest(1,0) over three
-   journaled application messages + one application task sending one message; FIFO schedule
-   [R; R; S; R; S; R]: the send starts after the rewind, takes number 1 again (a second, different new
-   message numbered 1 on the wire), its journal write succeeds, the replay's journal write raises
-   DuplicateSeqNoError inside the reader, the handler aborts: next_num_out = 2 and stored counter = 1
-   although 3 was the highest number sent. *)
-Theorem C14_resend_window_refuted :
+(* The three schedules that broke the property before the repair of D12, as examples of C14_resend_window
+   (pre-history: three application messages 1,2,3; reader servicing ResendRequest(1,0); one application
+   task sending id 9).  Schedule [R;R;S;R;S;R;R;R;R;R;R]: the send starts right after the replay began
+   and gets number 4; 1,2,3 are retransmitted; rows 1..4, counters 4 / 5, state ACTIVE again. *)
+Example C14_resend_window_example :
   let c := run_sched rw_cfg rw_sched in
-  fifo_sched rw_cfg rw_sched = true /\ valid_sched rw_cfg rw_sched = true /\ all_done c = true
-  /\ dup_number_on_wire (c_w c) /\ some_dup_error (c_ts c)
-  /\ sout (c_w c) = 1 /\ nout (c_w c) = 2 /\ highest (c_w c) = 3.
-Proof. exact resend_window_refuted. Qed.
-Print Assumptions C14_resend_window_refuted.
+  init_ok (c_w rw_cfg) /\ fifo_sched rw_cfg rw_sched = true /\ valid_sched rw_cfg rw_sched = true /\ all_done c = true
+  /\ wire_view (c_w c) = [(4, false, 9); (1, true, 1); (2, true, 2); (3, true, 3)]
+  /\ map fst (rows (c_w c)) = [1; 2; 3; 4] /\ sout (c_w c) = 4 /\ nout (c_w c) = 5 /\ st (c_w c) = S_ACTIVE.
+Proof. exact resend_window_example. Qed.
+Print Assumptions C14_resend_window_example.
 
-(* Same tasks, schedule [R;R;R;R; S;S; R;R;R;R;R]: the send starts after message 1 was replayed and
-   journaled again: DuplicateSeqNoError goes to the application caller, number 1 is used twice. *)
-Theorem C14_resend_window_caller_refuted :
+(* [R;R;R;R; S;S; R;R;R;R;R]: the send starts after message 1 was replayed; the caller gets no error. *)
+Example C14_resend_window_caller_example :
   let c := run_sched rw_cfg rw_sched2 in
   fifo_sched rw_cfg rw_sched2 = true /\ valid_sched rw_cfg rw_sched2 = true /\ all_done c = true
-  /\ (exists t, nth_error (c_ts c) 1 = Some t /\ t_out t = [OExc EDupSeq])
-  /\ dup_number_on_wire (c_w c).
-Proof. exact resend_window_caller_refuted. Qed.
-Print Assumptions C14_resend_window_caller_refuted.
+  /\ wire_view (c_w c) = [(1, true, 1); (4, false, 9); (2, true, 2); (3, true, 3)]
+  /\ (exists t, nth_error (c_ts c) 1 = Some t /\ t_out t = [OOk])
+  /\ map fst (rows (c_w c)) = [1; 2; 3; 4] /\ sout (c_w c) = 4 /\ nout (c_w c) = 5.
+Proof. exact resend_window_caller_example. Qed.
+Print Assumptions C14_resend_window_caller_example.
 
-(* The heartbeat task.  Its probe cannot START inside the window (heartbeat_timer_task probes only in
-   state ACTIVE) but one that is suspended in drain when the ResendRequest arrives is enough:
-   TestRequest 3 and the tail gap fill SequenceReset 3->4 both carry number 3, the gap fill's journal
-   write raises DuplicateSeqNoError, the handler aborts with next_num_out = 1, state RESENDREQ_HANDLING. *)
-Theorem C14_heartbeat_inflight_refuted :
+(* The heartbeat probe already suspended in drain (number 3, not journaled yet) when ResendRequest(1,0)
+   arrives: 1,2 retransmitted, tail gap fill 3 -> 4, the probe is journaled under 3, no error. *)
+Example C14_heartbeat_inflight_example :
   let c := run_sched hb_cfg hb_sched in
   fifo_sched hb_cfg hb_sched = true /\ valid_sched hb_cfg hb_sched = true /\ all_done c = true
-  /\ some_dup_error (c_ts c)
-  /\ (exists f g, In f (wire_of (c_w c)) /\ In g (wire_of (c_w c)) /\ f_seq f = 3 /\ f_seq g = 3
-                  /\ f_ty f = T_TESTREQ /\ f_ty g = T_SEQRESET)
-  /\ nout (c_w c) = 1 /\ highest (c_w c) = 3 /\ st (c_w c) = S_HANDLING.
-Proof. exact heartbeat_inflight_refuted. Qed.
-Print Assumptions C14_heartbeat_inflight_refuted.
+  /\ map (fun f => (f_seq f, f_ty f, f_pd f)) (wire_of (c_w c))
+     = [(3, T_TESTREQ, false); (1, 68, true); (2, 68, true); (3, T_SEQRESET, false)]
+  /\ map t_out (c_ts c) = [[OOk; OOk; OOk]; [OOk]] /\ map t_exc (c_ts c) = [None; None]
+  /\ map fst (rows (c_w c)) = [1; 2; 3] /\ sout (c_w c) = 3 /\ nout (c_w c) = 4 /\ st (c_w c) = S_ACTIVE.
+Proof. exact heartbeat_inflight_example. Qed.
+Print Assumptions C14_heartbeat_inflight_example.
 
 (* The wake-up rule is needed for the counter clause: two senders, LIFO wake-up [0;1;1;0]:
    wire 1,2 both journaled, stored counter 1, next_num_out 3.  (Not a library defect: asyncio wakes
